@@ -156,6 +156,48 @@ theorem hearly_every_run {α : Type} (K : Kern α) (z : α) (owed : Nat → Nat)
     D.length ≤ owed F.length :=
   le_trans (Soxr.Properties.C03.never_early_round K z owed lp hwf he hlat hpost hpos ops F D e r hfl).2 howed
 
+/-- **Never below −1 while streaming, for every history of the count model** (`accepted·q − delivered·p > −p`, i.e. `soxr_delay() > −1`,
+    for a plan whose rate product is `p/q`). -/
+theorem delay_gt_neg_one_every_history (lp : List LStage) (hwf : ∀ x ∈ lp, StageWF x.cfg x.s0) (he : PlanEarlyOK lp) (hlat : PlanLatOK false lp)
+    (hne : lp ≠ []) (p q : Nat) (hp : 0 < p) (hq : 0 < q) (hrate : rateOf (lp.map tstage) = (p : ℚ) / q)
+    (ops : List StreamOp) (N D : Nat) (e' : Eng) (hs : Streams (Soxr.Properties.C03.freshEng lp) ops N D e') :
+    -(p : Int) < (N : Int) * q - (D : Int) * p := by
+  rcases Nat.eq_zero_or_pos D with h0 | h1
+  · rw [h0]
+    have : (0 : Int) ≤ (N : Int) * q := by positivity
+    have hp' : (0 : Int) < p := by exact_mod_cast hp
+    simp only [Int.ofNat_zero, Int.zero_mul, Int.sub_zero]; omega
+  · have h := Soxr.Properties.C03.never_early_counts lp hwf he hlat hne ops N D e' hs h1
+    rw [hrate] at h
+    have hqq : (0 : ℚ) < q := by exact_mod_cast hq
+    have h2 : ((D : ℚ) - 1) * p < (N : ℚ) * q := by
+      have := mul_lt_mul_of_pos_right h hqq
+      have e1 : ((D : ℚ) - 1) * ((p : ℚ) / q) * q = ((D : ℚ) - 1) * p := by field_simp
+      rw [e1] at this; exact this
+    have h3 : ((D : ℚ)) * p < (N : ℚ) * q + p := by linarith
+    have h4 : (D : Int) * p < (N : Int) * q + p := by exact_mod_cast h3
+    omega
+
+/-- **After end-of-input the delay is the number of frames still to come, never negative — for every history, no never-early
+    hypothesis.**  A plan that meets the decidable hypotheses the driver evaluates on every exported plan; the engine's `owed` not
+    below the exact rounding.  ANY streaming history of the freshly initialised resampler (count model: the one the per-call
+    correspondence ties to the code; every such history is the shadow of one on samples, `streams_lift`), then end-of-input, then
+    any requests: at every point `samples_in = 0`, `delay = −samples_out ≥ 0` and `delivered + delay = owed N`. -/
+theorem delay_after_flush_every_history (num : Num) (lp : List LStage) (hwf : ∀ x ∈ lp, StageWF x.cfg x.s0) (he : PlanEarlyOK lp)
+    (hlat : PlanLatOK false lp) (hpost : rateOf (lp.map tstage) / 2 ≤ 1 + offsetOf (lp.map tstage) + margOf lp)
+    (hpos : 0 < rateOf (lp.map tstage)) (hne : lp ≠ [])
+    (howed : ∀ n : Nat, ⌊(n : ℚ) / rateOf (lp.map tstage) + 1 / 2⌋₊ ≤ num.owed n)
+    (a : Api) (ha : a.eng = Soxr.Properties.C03.freshEng lp) (e' : Eng) (ops : List StreamOp) (N D : Nat) (reqs : List Nat)
+    (hs : Streams a.eng ops N D e') :
+    let a1 : Api := { a with eng := e'.flush num.owed, flushing := true }
+    ∀ ods a2, Calls num a1 reqs ods a2 →
+      a2.eng.sin = 0 ∧ 0 ≤ -a2.eng.sout ∧ (D : Int) + ods.sum + (-a2.eng.sout) = num.owed N := by
+  have hf : Soxr.Properties.C03.Fresh a.eng := by rw [ha]; exact Soxr.Properties.C03.freshEng_fresh lp hwf hne
+  have hearly : D ≤ num.owed N := by
+    rw [ha] at hs
+    exact le_trans (Soxr.Properties.C03.never_early_round_counts lp hwf he hlat hpost hpos hne ops N D e' hs) (howed N)
+  exact delay_after_flush num a e' ops N D reqs hf.sin hf.sout hf.str hs hearly
+
 /-- non-vacuity of `hearly_every_run` where it matters: the plan the real planner builds for 49 → 10 at `SOXR_QQ` (one cubic stage,
     step 4.9·2³² rounded, `pre_post = 4`, `pre = preload = 1`) meets every hypothesis, the post-context clause included … -/
 def exCubic : List LStage :=
